@@ -199,6 +199,21 @@ static void l3_count(long shard, void *arg) {
     }
 }
 
+/* all-numeric names: n = 1..12 labels of 1-3 digits (with and without root dot) are refused whatever n is; one letter or hyphen in any one
+ * label lifts the rule (shard = n) */
+static void l3_numeric(long shard, void *arg) {
+    (void)arg; int n = (int)shard + 1; unsigned char t[128];
+    static const char *const DG[] = { "1", "0", "42", "255", "007" };
+    for (int dg = 0; dg < 5; dg++) for (int root = 0; root < 2; root++) for (int dev = -1; dev < n; dev++) for (int dk = 0; dk < (dev < 0 ? 1 : 3); dk++) {
+        size_t l = 0;
+        for (int i = 0; i < n; i++) { if (i) t[l++] = '.';
+            if (i == dev) { const char *d = dk == 0 ? "a" : dk == 1 ? "1a" : "1-1"; size_t dl = strlen(d); memcpy(t + l, d, dl); l += dl; }
+            else { const char *d = DG[(dg + i) % 5]; size_t dl = strlen(d); memcpy(t + l, d, dl); l += dl; } }
+        if (root) t[l++] = '.';
+        check_domain("L3numeric", t, l); MC_ADD(C_L3, 1);
+    }
+}
+
 /* mode 6531: long U-label domains (UTF-8 byte length crosses 255 while the A-label form is within / beyond 253) */
 static void l3_ulabel(long shard, void *arg) {
     (void)arg; int nl = (int)shard + 1;
@@ -240,6 +255,7 @@ int main(int argc, char **argv) {
     mc_parallel("L3: label length 0..70 x position x 1..5 labels (+hyphen positions)", 5L * 5 * 71, l3_labels, NULL);
     mc_parallel("L3: total length 235..262 x last label 1..63 x root dot", 28, l3_total, NULL);
     mc_parallel("L3: label count: n = 1..140 equal labels of k = 1..63 characters (127 x 1 = 253 included), root dot, last label +1", 63, l3_count, NULL);
+    mc_parallel("L3: all-numeric names of 1..12 labels (5 digit spellings, root dot) and the same with one non-numeric label at every position", 12, l3_numeric, NULL);
     mc_parallel("L3: U-label domains of 1..7 labels x 8..56 letters (2- and 3-byte) around the 253/255 limits", 7, l3_ulabel, NULL);
     if (corpus_load()) return 2;
     { static const int PH[] = { CP_LONGIDN, CP_ALTDOT, CP_LABELLEN };
